@@ -11,13 +11,16 @@ DRIVER = os.path.join(os.path.dirname(os.path.dirname(os.path.dirname(os.path.ab
 
 
 def _norm(label):
-    return re.sub(r"\be\d+\.", "", label)
+    return re.sub(r"^tstart\(F\d+\)$", "tstart(F)", re.sub(r"\be\d+\.", "", label))
 
 
-def _env(e, last="ok"):
+def _env(e, last="ok", me=None, res=1):
+    # the feeder thread counts as started for the caller unless the caller itself is the one about to start it
+    # (Queue.put sets `_thread` before the announced start)
+    feeder = bool(e["feeder"]) and (e["feeder_started"] or me not in e["tstarting"])
     procs = ",".join(f"{p}:{int(a)}" for p, a in e["procs"]) or "-"
     return (f"env pending={e['pending']} procs={procs} broken={int(e['broken'] is not None)} shutdown={int(bool(e['shutdown']))} "
-            f"mw={e['mw']} started={int(bool(e['started']))} feeder={int(bool(e['feeder']))} nextpid={e['nextpid']} last={last}")
+            f"mw={e['mw']} started={int(bool(e['started']))} feeder={int(feeder)} nextpid={e['nextpid']} last={last} res={res}")
 
 
 def compare(scen, rec):
@@ -44,12 +47,15 @@ def compare(scen, rec):
         lines.append(f"begin {new}")
         expect.append(("ok", None))
         for j in range(1, len(idx) - 1):
-            e = rec["obs"][idx[j - 1]]["ex"][exi]
-            lines.append(_env(e, "timeout" if rec["trace"][idx[j - 1]][1] == "timeout" else "ok"))
+            o = rec["obs"][idx[j - 1]]
+            e = o["ex"][exi]
+            m = re.fullmatch(r"alive\((\d+)\)", labels[j - 1])
+            res = int(m is None or f"W{m.group(1)}" in o["alive"])      # what the previous is_alive() call returned
+            lines.append(_env(e, "timeout" if rec["trace"][idx[j - 1]][1] == "timeout" else "ok", u, res))
             expect.append((labels[j], {"call": a, "op_index": j, "step": idx[j], "env": lines[-1], "labels_so_far": labels[max(0, j - 8):j + 1]}))
         # after the inner release the model must be done
         e = rec["obs"][idx[-2]]["ex"][exi]
-        lines.append(_env(e))
+        lines.append(_env(e, "ok", u))
         expect.append(("return", {"call": a, "op_index": len(idx) - 1, "env": lines[-1], "labels_so_far": labels[-8:]}))
     if not lines:
         return {"calls": 0, "ops": 0, "diff": None}
